@@ -202,21 +202,26 @@ void ScriptClass::KillThreads()
         return;
     }
 
-    ScriptVM *m_current;
-    ScriptVM *m_next;
+    // Deleting one thread can delete other threads of this chain with it (threads of the same
+    // script instance waiting on each other), together with their VMs: a saved next pointer can
+    // dangle. Detach every VM first and keep the threads through weak references.
+    con::Container<SafePtr<ScriptThread>> threads;
 
-    m_current = m_Threads;
-
-    do
+    for (ScriptVM* vm = m_Threads; vm; vm = vm->GetNext())
     {
-        m_current->ClearScriptClass();
-
-        m_next = m_current->GetNext();
-        delete m_current->GetScriptThread();
-
-    } while ((m_current = m_next));
+        vm->ClearScriptClass();
+        threads.AddObject(vm->GetScriptThread());
+    }
 
     m_Threads = NULL;
+
+    for (size_t i = 1; i <= threads.NumObjects(); ++i)
+    {
+        ScriptThread* const thread = threads.ObjectAt(i);
+        if (thread) {
+            delete thread;
+        }
+    }
 }
 
 void ScriptClass::RemoveThread(ScriptVM *m_ScriptVM)
